@@ -1,4 +1,5 @@
 """Running the real binary and the extracted model on the same case, canonicalising, comparing."""
+import zlib
 import os, re, subprocess, shutil, resource, signal, json, time, itertools
 from . import build
 from .chain import COINS
@@ -150,7 +151,9 @@ class ImplResult:
 
 _DROP = {}
 _DROP_LOCK = __import__('threading').Lock()
-ROT = {'as_user': 0, 'prior': 0}      # how often the generic rotations actually applied (recorded in the evidence)
+PATH_COMPONENTS = ['', '.bitcoin/blocks', 'backup/testnet3/mainnet-copy/blocks', '.namecoin/btc/blocks', '.litecoin', 'dogecoin/.dogecoin/blocks', '', '.myriadcoin/x', '.unobtanium', '.notecoin/blocks',
+                   'testnet3', 'regtest/blocks', '', 'Bitcoin', 'namecoin', '.bitcoin/testnet3/blocks']
+ROT = {'as_user': 0, 'prior': 0, 'path_name': 0}      # how often the generic rotations actually applied (recorded in the evidence)
 def can_drop(tools, uid):
     """True when the harness can start the parser as the unprivileged user `uid` and that user can reach the binary and the work directory (probed once;
     a checkout below a 0700 home directory, a harness that is not root, or a sandbox without CAP_SETUID switch the `as_user` rotation off)"""
@@ -171,6 +174,12 @@ def can_drop(tools, uid):
             _DROP[uid] = ok
     return _DROP[uid]
 
+def path_component(case, tag):
+    comp = PATH_COMPONENTS[zlib.crc32(('%s/%s' % (case.id, tag)).encode()) % len(PATH_COMPONENTS)]
+    if getattr(case, 'path_component', None) is not None: comp = case.path_component
+    if os.environ.get('VERIF_NO_PATH_ROT'): comp = ''      # (used once, to measure a seeded change against the checks as they stood before this rotation existed)
+    return comp
+
 def run_impl(tools, case, cb, datadir=None, outdir=None, release=False, env=None, preexec=None, verbosity=0, keep=False, timeout=90, wrapper=None, prefill=None, _attempt=0):
     """Materialises the case (unless datadir is given), runs one callback, returns an ImplResult.
     A run that exceeds the timeout is repeated (up to 3 attempts): rusty-leveldb 3.0.2 loads the index through an iterator whose read sampling is a symmetric random walk
@@ -178,8 +187,15 @@ def run_impl(tools, case, cb, datadir=None, outdir=None, release=False, env=None
     is read - independent of the input and of rusty-blockparser's own code. A run that times out three times in a row is reported as it is."""
     base = os.path.join(tools.work, 'c%s_%s_%d' % (re.sub(r'\W', '_', case.id), cb, time.time_ns() % 10**9))
     own_dd = datadir is None
+    dd_root = None
     if own_dd:
-        datadir = base + '_dd'; case.materialise(datadir, tools.ldbw)
+        # generic rotation `path_name`: the data directory sits below path components named like the default directories of other clients (and of the own one) -
+        # the result is a function of the directory's content and the options, never of how the directory is called
+        comp = path_component(case, cb)
+        dd_root = base + '_dd'
+        datadir = os.path.join(dd_root, comp) if comp else dd_root
+        if comp: ROT['path_name'] += 1
+        case.materialise(datadir, tools.ldbw)
     own_out = outdir is None and cb in NEEDS_DIR
     if own_out:
         outdir = base + '_out'; os.makedirs(outdir)
@@ -229,7 +245,7 @@ def run_impl(tools, case, cb, datadir=None, outdir=None, release=False, env=None
     except subprocess.TimeoutExpired as ex:
         rc, so, se = -999, ex.stdout or b'', ex.stderr or b''
         if _attempt < 2:
-            if own_dd: shutil.rmtree(datadir, ignore_errors=True)
+            if own_dd: shutil.rmtree(dd_root, ignore_errors=True)
             if own_out: shutil.rmtree(outdir, ignore_errors=True)
             RETRIES.append((case.id, cb, _attempt))
             return run_impl(tools, case, cb, datadir=None if own_dd else datadir, outdir=None if own_out else outdir, release=release, env=env, preexec=preexec0, verbosity=verbosity,
@@ -248,7 +264,7 @@ def run_impl(tools, case, cb, datadir=None, outdir=None, release=False, env=None
         for nm in [n for n in r.files if n.endswith('.tmp') and r.files[n] == stale.get(n)]: r.files[nm] = b''      # an untouched stale tmp counts as "tmp present, nothing of this run in it"
     r.datadir = datadir; r.outdir = outdir
     if not keep:
-        if own_dd: shutil.rmtree(datadir, ignore_errors=True)
+        if own_dd: shutil.rmtree(dd_root, ignore_errors=True)
         if own_out: shutil.rmtree(outdir, ignore_errors=True)
     text = (so + b'\n' + se).decode(errors='replace')
     m = re.search(r'Error at height (\d+): (.*)', text)
@@ -428,7 +444,10 @@ CMP = {'csv': cmp_csv, 'unspent': cmp_unspent, 'balances': cmp_balances, 'opretu
 
 def compare_case(tools, case, model, cbs, release=False, env=None, keep_dir=None):
     """Runs the callbacks of `cbs` on the materialised case and compares each with the model. Returns list of (cb, [diffs])."""
-    dd = os.path.join(tools.work, 'dd_%s_%d' % (re.sub(r'\W', '_', case.id), time.time_ns() % 10**9))
+    dd_root = os.path.join(tools.work, 'dd_%s_%d' % (re.sub(r'\W', '_', case.id), time.time_ns() % 10**9))
+    comp = path_component(case, 'all')      # generic rotation `path_name` (see run_impl)
+    dd = os.path.join(dd_root, comp) if comp else dd_root
+    if comp: ROT['path_name'] += 1; case.path_component = comp
     case.materialise(dd, tools.ldbw)
     out = []
     try:
@@ -437,5 +456,5 @@ def compare_case(tools, case, model, cbs, release=False, env=None, keep_dir=None
             diffs = CMP[cb](r, model, case)
             out.append((cb, diffs, r))
     finally:
-        shutil.rmtree(dd, ignore_errors=True)
+        shutil.rmtree(dd_root, ignore_errors=True)
     return out
